@@ -6,6 +6,7 @@ mod jsonio;
 mod prog;
 mod s_atten;
 mod s_authz;
+mod s_capi;
 mod s_chain;
 mod s_determ;
 mod s_engine;
@@ -47,6 +48,8 @@ fn main() {
         "params" => s_params::run(&opts),
         "keys" => s_keys::run(&opts),
         "macros" => s_macros::run(&opts),
+        "capi" => s_capi::run(&opts),
+        "capi-child" => s_capi::child(&opts),
         "untrusted" => s_untrusted::run(&opts),
         "untrusted-child" => s_untrusted::child(&opts),
         "parsetext" => s_print::parsetext(),
